@@ -107,6 +107,31 @@ class _SuperProxy(PyStub):
         raise AttributeError(name)
 
 
+class _ObjSuper(PyStub):
+    """super() inside a method of a repository class: the next definition of the method along the bases of the record's class"""
+
+    def __init__(self, obj, current):
+        object.__setattr__(self, '_obj', obj)
+        object.__setattr__(self, '_current', current)
+
+    def __getattribute__(self, name):
+        if name in ('_obj', '_current', '__class__', 'isa', 'repo_methods', 'repo_funcs'):
+            if name in ('isa', 'repo_methods', 'repo_funcs'):
+                raise AttributeError(name)
+            return object.__getattribute__(self, name)
+        o = object.__getattribute__(self, '_obj')
+        cur = object.__getattribute__(self, '_current')
+        names = [c_ for c_, _ in o.mro]
+        start = names.index(cur) + 1 if cur in names else 0
+        for cname, table in o.mro[start:]:
+            if name in table:
+                fn_ = table[name]
+                return lambda *a, **k: o.call(name, *a, _fn=fn_, _owner=cname, **k)
+        if name == '__init__':
+            return lambda *a, **k: None             # object.__init__
+        raise AttributeError("'super' object has no attribute %r" % name)
+
+
 class Obj:
     """abstract record: a dict of field values and the repo methods (AST) of its class;
     comparisons between records are dispatched to the *repository's* dunder methods,
@@ -121,8 +146,54 @@ class Obj:
         self.clsname = None             # set by absint.instance: private attributes (self.__x) are then mangled as Python does
         self.owners = None              # method name -> defining class (the class whose name mangles the private names in that method)
 
-    def call(self, name, *args, **kwargs):
-        fn = self.methods.get(name)
+    # -- Python's data model, for the places where a record meets native code (dictionary keys, tuple comparison, list.index, sorted,
+    #    truth tests): the repository's own dunder methods decide, with Python's defaults when the class defines none
+    def __eq__(self, other):
+        if '__eq__' in self.methods:
+            return self.call('__eq__', other)
+        return NotImplemented
+
+    def __ne__(self, other):
+        if '__ne__' in self.methods:
+            return self.call('__ne__', other)
+        if '__eq__' in self.methods:
+            r = self.call('__eq__', other)
+            return r if r is NotImplemented else not r
+        return NotImplemented
+
+    def __hash__(self):
+        if '__hash__' in self.methods:
+            return self.call('__hash__')
+        if '__eq__' in self.methods:
+            raise TypeError('unhashable type: %r' % (self.clsname or 'record'))
+        return id(self) >> 4
+
+    def _order(self, name, other):
+        if name in self.methods:
+            return self.call(name, other)
+        return NotImplemented
+
+    def __lt__(self, other):
+        return self._order('__lt__', other)
+
+    def __le__(self, other):
+        return self._order('__le__', other)
+
+    def __gt__(self, other):
+        return self._order('__gt__', other)
+
+    def __ge__(self, other):
+        return self._order('__ge__', other)
+
+    def __bool__(self):
+        if '__bool__' in self.methods:
+            return bool(self.call('__bool__'))
+        if '__len__' in self.methods:
+            return self.call('__len__') != 0
+        return True
+
+    def call(self, name, *args, _fn=None, _owner=None, **kwargs):
+        fn = _fn if _fn is not None else self.methods.get(name)
         if fn is None:
             raise Unsupported('no method %s' % name)
         params = [a.arg for a in fn.args.args]
@@ -140,7 +211,7 @@ class Obj:
                 except Unsupported:
                     pass
         if getattr(self, 'clsname', None):
-            env['__cls__'] = (getattr(self, 'owners', None) or {}).get(name, self.clsname)
+            env['__cls__'] = _owner or (getattr(self, 'owners', None) or {}).get(name, self.clsname)
         _bind_params(fn, params if static else params[1:], args, kwargs, env, self.funcs, name)
         body = fn.body
         if body and isinstance(body[0], ast.Expr) and isinstance(body[0].value, ast.Constant) and isinstance(body[0].value.value, str):
@@ -286,6 +357,11 @@ _DUNDER = {ast.Lt: '__lt__', ast.LtE: '__le__', ast.Gt: '__gt__', ast.GtE: '__ge
            ast.Eq: '__eq__', ast.NotEq: '__ne__'}
 
 
+def _is_property(fn):
+    return any((isinstance(d, ast.Name) and d.id in ('property', 'cached_property')) or (isinstance(d, ast.Attribute) and d.attr in ('cached_property',))
+               for d in getattr(fn, 'decorator_list', ()))
+
+
 def _demangled(o, name):
     """the private method `__x` of the record's class (or of a base) that the mangled name `_Class__x` denotes, if any"""
     if not isinstance(name, str) or not name.startswith('_') or name.endswith('__'):
@@ -415,7 +491,12 @@ def _iter(v, node=None):
     """the iterator Python's iter() gives for an interpreter value"""
     if isinstance(v, Obj):
         if '__iter__' in v.methods:
-            return _iter(v.call('__iter__'), node)
+            r_ = v.call('__iter__')
+            if isinstance(r_, Obj) and '__next__' in r_.methods:
+                return _ObjNext(r_)
+            if r_ is v:
+                raise TypeError('iter() returned non-iterator of type %r' % (v.clsname or 'record'))
+            return _iter(r_, node)
         if '__getitem__' in v.methods:
             def legacy():
                 i_ = 0
@@ -867,6 +948,8 @@ def ev(n, env, funcs=None):
             if n.attr in cc:
                 return cc[n.attr]
             if n.attr in v.methods:
+                if _is_property(v.methods[n.attr]):
+                    return v.call(n.attr)              # @property: reading the attribute runs the getter
                 return _BoundMethod(v, n.attr)
             if _demangled(v, n.attr) is not None:
                 return _BoundMethod(v, _demangled(v, n.attr))
@@ -980,7 +1063,10 @@ def ev(n, env, funcs=None):
             if isinstance(rv, Obj) and fname not in rv.methods and callable(rv.fields.get(_mangled(fname, env))):
                 # a callable stored in a field (a model function handed to the object)
                 return rv.fields[_mangled(fname, env)](*_args(n, env, funcs), **_kw(n, env, funcs))
-            if isinstance(rv, Obj) and fname in rv.methods:
+            if isinstance(rv, Obj) and (fname in rv.methods or _mangled(fname, env) in rv.methods):
+                mn_ = _mangled(fname, env)
+                if mn_ in rv.methods:
+                    fname = mn_             # self.__helper() inside class C is C's own private method, whatever subclasses define
                 rv.depth += 1
                 try:
                     if rv.depth > 60:
@@ -1050,6 +1136,10 @@ def ev(n, env, funcs=None):
         if isinstance(f, ast.Name) and fname == 'super':
             if 'self' not in env:
                 raise Unsupported('super() outside a method')
+            if isinstance(env['self'], Obj):
+                if not getattr(env['self'], 'mro', None) or '__cls__' not in env:
+                    raise Unsupported('super() on a record without class table')
+                return _ObjSuper(env['self'], env['__cls__'])
             return _SuperProxy(env['self'])
         if isinstance(f, ast.Name) and fname == 'set' and len(args) <= 1 and not n.keywords:
             if not args:
@@ -1156,6 +1246,8 @@ def ev(n, env, funcs=None):
                 if nm_ in o_.fields:
                     return o_.fields[nm_]
                 if args[1] in o_.methods:
+                    if _is_property(o_.methods[args[1]]):
+                        return o_.call(args[1])
                     return _BoundMethod(o_, args[1])           # getattr(obj, 'method'): a bound method taken as a value
                 if _demangled(o_, args[1]) is not None:
                     return _BoundMethod(o_, _demangled(o_, args[1]))      # getattr(self, '_Track__helper'): the private method under its mangled name
@@ -1262,6 +1354,16 @@ def ev(n, env, funcs=None):
             if fname == 'hasattr' and len(args) == 2 and isinstance(args[1], str):
                 o_ = args[0]
                 if isinstance(o_, Obj):
+                    if args[1] in o_.methods and _is_property(o_.methods[args[1]]) and args[1] not in o_.fields:
+                        try:
+                            o_.call(args[1])
+                            return True
+                        except AttributeError:
+                            return False
+                        except Raised as ex_:
+                            if ex_.name == 'AttributeError':
+                                return False
+                            raise
                     return args[1] in o_.fields or args[1] in o_.methods or _demangled(o_, args[1]) is not None or args[1] in (getattr(o_, 'consts', None) or {})
                 return hasattr(o_, args[1])
             if fname in ('ord', 'chr', 'bin', 'hex', 'oct', 'pow') and all(isinstance(a_, (int, float, str)) for a_ in args):
@@ -1289,8 +1391,18 @@ def ev(n, env, funcs=None):
         l = ev(n.left, env, funcs)
         ok = True
         for op, c in zip(n.ops, n.comparators):
+            if not ok:
+                return ok                  # a < b < c: c is not evaluated once a < b is false
             r = ev(c, env, funcs)
             t = type(op)
+            if isinstance(r, Obj) and t in (ast.In, ast.NotIn):
+                if '__contains__' in r.methods:
+                    inside = bool(r.call('__contains__', l))
+                else:
+                    inside = any(x is l or x == l for x in _iter(r, c))
+                ok = ok and (inside == (t is ast.In))
+                l = r
+                continue
             if (isinstance(l, Obj) or isinstance(r, Obj)) and t in (ast.Is, ast.IsNot):
                 ok = ok and ((l is r) == (t is ast.Is))
                 l = r
@@ -1476,11 +1588,7 @@ def ev(n, env, funcs=None):
         items = []
         for e in n.elts:
             if isinstance(e, ast.Starred):    # [first, *rest]
-                sv = ev(e.value, env, funcs)
-                if isinstance(sv, dict) or not (isinstance(sv, (list, tuple, set, frozenset, range, str)) or hasattr(sv, '__iter__')):
-                    if not isinstance(sv, dict):
-                        raise Unsupported('starred element %s' % _unparse(e))
-                items.extend(list(sv))
+                items.extend(_iter(ev(e.value, env, funcs), e.value))
             else:
                 items.append(ev(e, env, funcs))
         return set(items) if isinstance(n, ast.Set) else (tuple(items) if isinstance(n, ast.Tuple) else items)
@@ -1867,6 +1975,11 @@ def _bind(t, v, env, funcs=None):
     elif isinstance(t, ast.Attribute):
         base = ev(t.value, env, funcs)
         if isinstance(base, Obj):
+            if t.attr in base.methods and _is_property(base.methods[t.attr]) and t.attr not in base.fields:
+                if t.attr + '.setter' not in base.methods:
+                    raise AttributeError("property %r of %r object has no setter" % (t.attr, base.clsname))
+                base.call(t.attr + '.setter', v)
+                return
             base.fields[_mangled(t.attr, env)] = v
         elif isinstance(base, PyStub):
             setattr(base, t.attr, v)
